@@ -1,6 +1,7 @@
 (* C09: the implementation's multi-unit result, column by column, against the
    single-unit model run on that column alone. *)
 From TFL Require Export Harness.Compare Model.LatticeDykstra Model.PWLProject Model.LinearProject.
+From TFL Require Model.KFL Model.KFLUnits.
 Open Scope Q_scope.
 
 Definition lat1 (c : lat_cfg) : lat_cfg := mkLat (l_sizes c) 1 (l_monos c) (l_edge c) (l_trap c) (l_min c) (l_max c).
@@ -17,12 +18,35 @@ Inductive case :=
 | CLat (dc : dyk_cfg) (lc : lat_cfg) (ran strict : bool) (W out : list (list Q))   (* rows = vertices *)
 | CPwl (c : pwl_cfg) (W out : list (list Q))
 | CLin (c : lin_cfg) (W out : list (list Q))
-| CCat (ps : pairs) (lo hi : option Q) (W out : list (list Q)).
+| CCat (ps : pairs) (lo hi : option Q) (W out : list (list Q))
+(* KroneckerFactoredLattice with units > 1: implementation kernels in the layout
+   k[i][j][t] (L, units*dims, terms); k0/s0/b0 assigned, steps = constraint
+   applications performed on the real multi-unit layer, k1/s1 read back, outs =
+   layer outputs (batch x units) on pts (one row of dims coordinates per unit) *)
+| CKfl (c : KFL.config) (units dims terms : nat)
+       (k0 : list (list (list Q))) (s0 : list (list Q)) (b0 : list Q) (steps : list KFL.step)
+       (k1 : list (list (list Q))) (s1 : list (list Q)) (pts : list (list (list Q))) (outs : list (list Q)).
 
 Definition tol : Q := 1 # 1000000000.
 Definition ncols (W : list (list Q)) : nat := match W with [] => 0%nat | r :: _ => length r end.
 Definition cols_ok (f : list Q -> option (list Q)) (W out : list (list Q)) : bool :=
   forallb (fun u => opt_close (qlist_close tol) (f (column u W)) (Some (column u out))) (seq 0 (ncols W)).
+
+(* the ONE-unit KFL model on unit u's slice of the kernel, unit u's scale row and
+   bias, against unit u of the implementation's multi-unit result and column u
+   of its outputs (C09_kfl_run_on_slice: that one-unit run IS unit u of the
+   multi-unit model) *)
+Definition flat4 (k : KFL.kernel) : list Q := concat (concat (concat k)).
+Definition kfl_unit_ok (c : KFL.config) (dims terms : nat)
+           (k0 : list (list (list Q))) (s0 : list (list Q)) (b0 : list Q) (steps : list KFL.step)
+           (k1 : list (list (list Q))) (s1 : list (list Q)) (pts : list (list (list Q))) (outs : list (list Q))
+           (u : nat) : bool :=
+  let L := KFL.c_size c in
+  let p1 := KFL.run KFL.qroot c steps
+              (KFL.mkPar (KFL.unpack L 1 dims terms (KFLUnits.slice_unit dims u k0)) [nth u s0 []] [nth u b0 0]) in
+  qlist_close tol (flat4 (KFL.p_kern p1)) (flat4 (KFL.unpack L 1 dims terms (KFLUnits.slice_unit dims u k1))) &&
+  qmat_close tol (KFL.p_scale p1) [nth u s1 []] &&
+  qlist_close tol (map (fun pt => KFL.unit_out c p1 0 (nth u pt [])) pts) (column u outs).
 
 Definition check (c : case) : bool :=
   match c with
@@ -31,4 +55,6 @@ Definition check (c : case) : bool :=
   | CPwl cfg W out => cols_ok (fun col => Some (pwl_project_col cfg col)) W out
   | CLin cfg W out => cols_ok (lin_project_col qsqrt cfg) W out
   | CCat ps lo hi W out => cols_ok (cat_project_col ps lo hi) W out
+  | CKfl c units dims terms k0 s0 b0 steps k1 s1 pts outs =>
+      forallb (kfl_unit_ok c dims terms k0 s0 b0 steps k1 s1 pts outs) (seq 0 units)
   end.
